@@ -305,8 +305,24 @@ def check_context(A, rep):
             rep.fail("C07.d", norm_key("C07.d", "context.__enter__", "push"), "entering the backend-wide context does not always push the previous capacity", g.witness(w or []), g.label)
         # __exit__ is not called when __enter__ raises: an __enter__ that raises (the forced flush of a lowered
         # capacity met a conflicting file) must itself undo the counter increment and the push
+        # the field in which buffer_backend(capacity) hands the requested capacity to __enter__: found by role
+        # (the attribute __call__ assigns from its parameter), not by name
+        import ast as _ast
+        cmcls = next((n["recv"].args[0] for n in live(g) if n.kind == "enter" and n["fname"] == "__enter__" and n["recv"] is not None and n["recv"].kind == "obj"), None)
+        cap_fields = {}
+        for c_ in ([cmcls] + [k for k in A.model.classes.values() if cmcls is not None and cmcls.is_subclass_of(k.name) and k is not cmcls]) if cmcls is not None else []:
+            for st_ in c_.node.body:
+                if isinstance(st_, _ast.FunctionDef) and st_.name == "__call__":
+                    params = {a.arg for a in st_.args.args[1:] + st_.args.kwonlyargs}
+                    for x in _ast.walk(st_):
+                        if isinstance(x, _ast.Assign) and isinstance(x.value, _ast.Name) and x.value.id in params:
+                            for t in x.targets:
+                                if isinstance(t, _ast.Attribute) and isinstance(t.value, _ast.Name) and t.value.id == "self":
+                                    cap_fields[t.attr] = Val("param", x.value.id)
+        if not cap_fields:
+            raise AnalysisError(f"anchor: the backend-wide context of {cls.name} has no __call__ that stores the requested capacity; not decided")
         for count in (0, 1):
-            b, ge = A.ctx_exit_graph(cls, "backend", count, 0, method="__enter__", fields={"_buffer_capacity": Val("param", "buffer_capacity")})
+            b, ge = A.ctx_exit_graph(cls, "backend", count, 0, method="__enter__", fields=cap_fields)
             rep.context(ge.label + " (raises)", True)
             if ge.exc_exit not in ge.live:
                 rep.ok("C07.d", f"C07.d {ge.label}: entering cannot raise")
